@@ -29,9 +29,9 @@ def conds(tier):
                 bounds=("len(p)<=1, len(q)<=2" if q else "len(p)<=2, len(q)<=3") + "; 5 inner shapes"),
         xh.Cond(M, "c02_nested_d3", t(150, 1500), examples=[ex(p="T", q="K", shape=1), ex(p="X", q="M", shape=2)],
                 bounds=("len(p)<=1, len(q)<=2" if q else "len(p)<=2, len(q)<=3") + "; 4 inner shapes"),
-        xh.Cond(M, "c02_all_trees", t(300, 1800), kind="shape-bounded", examples=[ex(kind=0, r=0, a=18, b=0), ex(kind=1, r=3, a=1, b=0), ex(kind=2, r=6, a=0, b=3), ex(kind=2, r=15, a=25, b=5), ex(kind=1, r=12, a=30, b=0)],
-                bounds="every type tree over leaves {T, Key, This} x scopes {-, T::, This::, ns::} x {plain, const&, *} and templated roots {vec, Rebind} x scopes {std::, T::, This::} x qualifiers with 1-2 leaf arguments (%s), with and without the instantiated class handed over" % (
-                    "each root with every third leaf, second argument derived" if q else "all roots x all leaves x 6 second arguments")),
+        xh.Cond(M, "c02_all_trees", t(300, 1800), kind="shape-bounded", examples=[ex(kind=0, r=0, a=18, b=0), ex(kind=1, r=3, a=1, b=0), ex(kind=2, r=6, a=0, b=3), ex(kind=2, r=15, a=25, b=5), ex(kind=1, r=0, a=30, b=0), ex(kind=2, r=3, a=12, b=6), ex(kind=1, r=12, a=30, b=0)],
+                bounds="every type tree over leaves {T, Key, This} x scopes {-, T::, This::, ns::, T::Traits::, This::Inner::} x {plain, const&, *} and templated roots {vec, Rebind} x scopes {std::, T::, This::} x qualifiers with 1-2 leaf arguments (%s), with and without the instantiated class handed over" % (
+                    "each root with every third leaf, second argument derived" if q else "all roots x all leaves x 8 second arguments")),
         xh.Cond(M, "c02_this", t(120, 900), examples=[ex(q="Val", shape=1), ex(q="Thisx", shape=3), ex(q="w", shape=2)],
                 bounds="len(q)<=6, 4 shapes"),
         xh.Cond(M, "c02_class_positions", t(240, 1800), examples=[ex(p="T", q="Key"), ex(p="V", q="Value")],
